@@ -766,8 +766,15 @@ class ExcAnalysis:
                 if c is not None:
                     classes.append(c)
         # classes looked up in a static dispatch table
+        tbl_t = None
         if recv.op == "sub" and unsnap(recv.args[0]).op == "static":
-            tbl = ex.statics.get(unsnap(recv.args[0]).args[0])
+            tbl_t = unsnap(recv.args[0])
+        else:
+            mcr = meth_call(recv)
+            if mcr and mcr[1] == "get" and unsnap(mcr[0]).op == "static" and 1 <= len(mcr[2]) <= 2 and (len(mcr[2]) == 1 or unsnap(mcr[2][1]) is NONE):
+                tbl_t = unsnap(mcr[0])  # TABLE.get(key): an entry of the table (None is a matter of the attribute access, not of the dispatch)
+        if tbl_t is not None:
+            tbl = ex.statics.get(tbl_t.args[0])
             if isinstance(tbl, dict):
                 out = []
                 for v in tbl.values():
